@@ -342,6 +342,7 @@ pub fn run() {
     run_family("line-shapes", &corpus::shape_programs(), &mut fam, &mut all);
     run_family("label-rules", &corpus::label_programs(), &mut fam, &mut all);
     run_family("character-classes", &corpus::char_class_programs(), &mut fam, &mut all);
+    run_family("long-texts", &corpus::long_programs(), &mut fam, &mut all);
     let orgs = org_programs(true);
     run_family("org-after-every-position", &orgs, &mut fam, &mut all);
     let sizes = size_programs();
